@@ -48,6 +48,20 @@ type World struct {
 	streamInt grpc.StreamServerInterceptor
 	impls     map[string]any
 	restarts  int
+	roConn    *sql.DB
+}
+
+// ro returns a cached harness-owned read-only connection (plain sqlite3 driver).
+func (w *World) ro() (*sql.DB, error) {
+	if w.roConn == nil {
+		c, err := sql.Open("sqlite3", "file:"+w.file+".sqlite3?mode=ro&_busy_timeout=10000")
+		if err != nil {
+			return nil, err
+		}
+		c.SetMaxOpenConns(1)
+		w.roConn = c
+	}
+	return w.roConn, nil
 }
 
 var runCounter int
@@ -179,6 +193,10 @@ func (w *World) Restart() error {
 }
 
 func (w *World) Close() {
+	if w.roConn != nil {
+		w.roConn.Close()
+		w.roConn = nil
+	}
 	if w.Client != nil {
 		w.Client.Close()
 	}
